@@ -203,6 +203,19 @@ def s_two_named_registers(i):
     return schema
 
 
+def s_shared_operand_list(v):
+    a = v("a", -1000, 1000)
+    ops = [R("R", 0), R("R", 0), Lit(a)]          # ONE list object used by two instructions
+    return [
+        Ins("set", [R("R", 0), Lit(1)]),
+        Ins("add", ops),
+        Ins("set", [R("C", 1), Lit(9)]),
+        Ins("sub", [R("C", 2), R("C", 1), Lit(4)]),
+        Ins("add", ops),
+        Ins("ret_reg", [R("R", 0)]), Ins("ret_reg", [R("C", 2)]),
+    ]
+
+
 SCHEMAS = {
     "literals in every value position of the classical instructions": s_literals_classical,
     "arrays: literal sizes, values, indices; argument brackets": s_arrays,
@@ -215,6 +228,7 @@ SCHEMAS = {
     "fifteen R registers named: one scratch register left": s_fifteen_registers,
     "sixteen registers of other banks named before the R registers": s_other_banks_first,
     "allocation instructions with literal and register operands": s_allocation,
+    "two instructions built from one operand list object": s_shared_operand_list,
 }
 
 
@@ -237,12 +251,17 @@ def _ir_operand(o):
 
 def to_proto(prog):
     cmds = []
+    shared = {}         # source instructions that share ONE operand list object share one IR operand list too (hand-built IR may do that)
     for it in prog:
         if isinstance(it, Lbl):
             cmds.append(BranchLabel(it.name))
         else:
-            ops = [_ir_operand(o) for o in it.ops]
-            cmds.append(ICmd(instruction=GenericInstr[it.mn.upper()], args=ops[:it.nargs], operands=ops[it.nargs:]))
+            if id(it.ops) in shared and it.nargs == 0:
+                ops = shared[id(it.ops)]
+            else:
+                ops = [_ir_operand(o) for o in it.ops]
+                shared[id(it.ops)] = ops
+            cmds.append(ICmd(instruction=GenericInstr[it.mn.upper()], args=ops[:it.nargs], operands=ops[it.nargs:] if it.nargs else ops))
     return ProtoSubroutine(commands=cmds, netqasm_version=(0, 0), app_id=0)
 
 
